@@ -170,7 +170,8 @@ Lemma accept_inv r a : accept r = Some a ->
   hdr_add_all [] (map strip_value (r_headers r)) = Some (q_headers a) /\
   (exists f, partition1 63 (r_uri r) = (q_path a, f, q_query a)) /\
   host_abnf (q_host a) = true /\
-  q_https a = effective_https (r_xheaders r) (r_https r) (hm_get k_xscheme (q_headers a)) (hm_get k_xfproto (q_headers a)).
+  q_https a = effective_https (r_xheaders r) (r_https r) (hm_get k_xscheme (q_headers a)) (hm_get k_xfproto (q_headers a)) /\
+  q_remote a = remote_spec r.
 Proof.
   unfold accept. intros H.
   destruct (negb (is_token (r_method r))); [discriminate|].
@@ -181,7 +182,7 @@ Proof.
   destruct (negb (host_abnf hv)) eqn:Eh; [discriminate|].
   destruct (existsb (N.eqb 44) hv); [discriminate|].
   destruct (partition1 63 (r_uri r)) as [[p f] q] eqn:P. inversion H; subst. cbn.
-  split; [reflexivity|]. split; [eauto|]. split; [apply negb_false_iff; exact Eh|reflexivity].
+  split; [reflexivity|]. split; [eauto|]. split; [apply negb_false_iff; exact Eh|]. split; reflexivity.
 Qed.
 
 Lemma hm_get_joined hs h0 n : hdr_add_all [] hs = Some h0 -> hm_get (normalize n) h0 = joined n hs.
@@ -192,7 +193,7 @@ Qed.
 
 Lemma accept_https r a : accept r = Some a -> q_https a = https_spec r.
 Proof.
-  intros Ha. destruct (accept_inv r a Ha) as [Hadd [_ [_ E]]]. rewrite E. unfold https_spec.
+  intros Ha. destruct (accept_inv r a Ha) as [Hadd [_ [_ [E _]]]]. rewrite E. unfold https_spec.
   change k_xscheme with (normalize (t "x-scheme")). change k_xfproto with (normalize (t "x-forwarded-proto")).
   rewrite !(hm_get_joined _ _ _ Hadd). reflexivity.
 Qed.
@@ -213,7 +214,7 @@ Lemma check_env_model r a e :
 Proof.
   intros Ha He. destruct (accept_inv r a Ha) as [Hadd _].
   destruct (environ_fixed r a e He) as [E1 [E2 [E3 [E4 [E5 [E6 [E7 [p [E8 E9]]]]]]]]].
-  unfold check_env. rewrite <- (accept_https r a Ha). rewrite E1, E2, E3, E4, E5, E6, E9, !text_eqb_refl.
+  unfold check_env. rewrite <- (accept_https r a Ha). rewrite <- (proj2 (proj2 (proj2 (proj2 (accept_inv r a Ha))))). rewrite E1, E2, E3, E4, E5, E6, E9, !text_eqb_refl.
   rewrite (path_info_bytes _ (accept_path_bytes r a Ha)) in E7. inversion E7 as [E7']. rewrite text_eqb_refl.
   rewrite (check_host_model _ _ _ _ E8). rewrite (environ_extra r a e He).
   rewrite (check_headers_extras _ _ Hadd). reflexivity.
